@@ -464,6 +464,12 @@ def check_get_volume(c, unit, result, exc):
     except R.Reject:
         return
     if b != 'L':
+        # a volume cannot be stated in moles, grams or activity units: the question is refused, not answered with some number
+        M.count('OBS.get_volume_wrong_kind_of_unit')
+        M.bucket('C10/get_volume/wrong_kind_of_unit')
+        if exc is None and c.contents and R.measure(c.contents, 'L') > 0:
+            M.violate(['C10', 'C06', 'C18'], 'OBS', f'C10:volume_answered_in_a_unit_that_is_not_a_volume:{b}',
+                      {'unit': unit, 'got': result, 'container': F.snap_contents(c)})
         return
     M.count('OBS.get_volume')
     if exc is not None:
@@ -472,8 +478,9 @@ def check_get_volume(c, unit, result, exc):
         return
     exp = R.measure(c.contents, 'L') / R.PREFIX[p]
     n = len(c.contents)
+    # (the answer keeps what the storage unit resolves: q storage units, or q of the requested unit if that is finer)
     tol = (K * cf.q * (n + 2) * (1 + sum(abs(H1.vol_per_stored(s)) for s in c.contents)) * cf.vol_prefix / R.PREFIX[p]
-           + K * cf.q + 1e-9 * abs(exp))
+           + K * cf.q * min(1.0, cf.vol_prefix / R.PREFIX[p]) + 1e-9 * abs(exp))
     if not M.ratio('OBS.get_volume', result, exp, tol):
         M.violate(['C10'], 'OBS', 'C10:get_volume_ne_definition',
                   {'unit': unit, 'got': result, 'expected': exp, 'tol': tol, 'container': F.snap_contents(c)})
@@ -611,9 +618,11 @@ class HPlateObserver(Handler):
                 return
         if which == 'get_moles' and b != 'mol':
             return
-        if which == 'get_volume' and b != 'L':
-            return
-        if which == 'get_volumes' and only is None and b != 'L':
+        if (which == 'get_volume' or (which == 'get_volumes' and only is None)) and b != 'L':
+            M.count('OBS.get_volume_wrong_kind_of_unit')
+            if exc is None and any(R.measure(w_.contents, 'L') > 0 for _, w_ in wells):
+                M.violate(['C10', 'C06', 'C18'], 'OBS', f'C10:volume_answered_in_a_unit_that_is_not_a_volume:{b}:{which}',
+                          {'unit': unit, 'got': repr(result)[:120]})
             return
         if exc is not None:
             M.violate(['C10', 'C18'], 'OBS', f'C10:{which}_raised:{type(exc).__name__}',
@@ -631,7 +640,7 @@ class HPlateObserver(Handler):
             vals.append((v, tol_w))
         if which == 'get_volume':
             exp = sum(v for v, _ in vals)
-            tol = sum(t + half for _, t in vals)
+            tol = sum(t for _, t in vals) + half        # the total is rounded for display once
             got = float(result)
             if not M.ratio('OBS.plate', got, exp, tol):
                 M.violate(['C10'], 'OBS', 'C10:plate_get_volume_ne_sum_of_wells',
